@@ -35,4 +35,3 @@ func (c *Ctx) need(rule, rel, name string) *ssa.Function {
 	c.R.Fn(core.FuncName(fn))
 	return fn
 }
-
